@@ -24,10 +24,47 @@ EXPLANATION = (
     "fmt_chksum ladder `>99→0, >9→1, else 2` into a '000' buffer; R02.4 BaseField::encode: itoa(tag) ≺ '=' ≺ print ≺ SOH; R02.5 "
     "MessageBase::encode iterates _pos (multimap<position, field>) and all five add_field bodies insert {pos, field}; groups: count field "
     "then encode_group over _msgs in order; R02.6 the routine that computes the CheckSum (Message::calc_chksum) satisfies the range, stride and "
-    "carry-bookkeeping rules of C07. NOT decided: group count vs. element count, values.")
+    "carry-bookkeeping rules of C07; R02.7 Message::encode(f8String&) assigns (pointer, length returned by encode(char**)). NOT decided: group count vs. element count, values.")
 
 M = 'FIX8::Message::'
 MB = 'FIX8::MessageBase::'
+
+
+def pos_type_rule(ctx, prog, RID):
+    """the position index admits several fields under one key (position-less user fields all have position 0) and iterates ascending"""
+    pos_t = [r for (t, r) in prog.records('FIX8::MessageBase')]
+    ctx.need(pos_t, 'MessageBase record not found')
+    fld = [x for x in pos_t[0]['fields'] if x['n'] == '_pos']
+    ty = prog.tus[0].types[fld[0]['t']]['c'] if fld else ''
+    ctx.check(ty.startswith('std::multimap<unsigned short, FIX8::BaseField *') and 'greater' not in ty, RID, MB + '_pos#type', pos_t[0]['file'].split('/')[-1],
+              '_pos is std::multimap<position, field> with the default (ascending) comparator',
+              '_pos has type %s: a container with unique keys drops the second of two fields that share a position (every position-less user field has position 0), '
+              'so that field is marked present but never encoded' % ty)
+
+
+def string_overload_rule(ctx, prog, RID):
+    """Message::encode(f8String&) hands over exactly the bytes encode(char**) produced: (start pointer, returned length) - not a C string"""
+    es = [g for g in prog.fns(M + 'encode') if ('basic_string' in g.sig or 'f8String' in g.sig) and 'char **' not in g.sig and len(g.param_ids) == 1]
+    ctx.need(len(es) == 1, 'Message::encode(f8String&) not found')
+    g = es[0]
+    ctx.saw(g)
+    enc = [c for c in g.calls() if c.callee_qp == M + 'encode' and c.args and q.param_type_str(c, 0) == 'char **']
+    ctx.need(len(enc) == 1, 'encode(f8String&): inner encode(char**) call not found')
+    outp = g.param_ids[0]
+    asg = [c for c in g.calls() if c.callee is not None and c.callee.get('n') in ('assign', 'append', 'operator=') and c.obj is not None and q.refers_to_decl(c.obj, outp)]
+    asg += [c for c in g.calls() if c.r.get('op') == '=' and c.args and q.refers_to_decl(c.args[0], outp)]
+    ctx.need(asg, 'encode(f8String&): no assignment to the output string found')
+    ok = False
+    for c in asg:
+        args = [a for a in (c.args if c.r.get('op') != '=' else c.args[1:]) if a.k != 'CXXDefaultArgExpr']
+        if len(args) >= 2:
+            ln = args[1].strip(casts=True)
+            from_encode = ln == enc[0] or (ln.k == 'DeclRefExpr' and any(val is not None and enc[0] in list(val.walk()) for (_, kind, val) in q.local_defs(g, ln.declid)))
+            ok = ok or from_encode
+    ctx.check(ok, RID, M + 'encode/string#length-from-encoder', asg[0].loc,
+              'the output string receives (pointer, length returned by encode(char**))',
+              'the output string is filled by `%s` without the length the encoder returned: the text is cut at the first NUL byte (a data or pass-through value '
+              'containing one is truncated together with everything after it)' % asg[0].text())
 
 
 def run(ctx):
@@ -156,12 +193,7 @@ def run(ctx):
     fr = [n for n in me.all_nodes() if n.k == 'CXXForRangeStmt']
     okr = len(fr) == 1 and q.refers_to_member(fr[0].child('range'), MB + '_pos')
     ctx.check(okr, 'R02.5', MB + 'encode#iterate-pos', me.loc, 'fields are emitted by iterating the position index _pos')
-    pos_t = [r for (t, r) in prog.records('FIX8::MessageBase')]
-    ctx.need(pos_t, 'MessageBase record not found')
-    fld = [x for x in pos_t[0]['fields'] if x['n'] == '_pos']
-    ty = prog.tus[0].types[fld[0]['t']]['c'] if fld else ''
-    ctx.check(ty.startswith('std::multimap<unsigned short, FIX8::BaseField *') and 'greater' not in ty, 'R02.5', MB + '_pos#type', pos_t[0]['file'].split('/')[-1],
-              '_pos is std::multimap<position, field> with the default (ascending) comparator', '_pos has type ' + ty)
+    pos_type_rule(ctx, prog, 'R02.5')
     adds = [g for g in prog.all_functions() if g.qp in (MB + 'add_field', MB + 'add_field_decoder') and g.tmpl != 'pattern']
     n_add = 0
     for g in adds:
@@ -191,6 +223,7 @@ def run(ctx):
     unk = [c for c in me.calls() if c.callee is not None and c.callee.get('n') == 'copy' and c.obj is not None and q.refers_to_member(c.obj, MB + '_unknown')]
     ctx.check(len(unk) == 1 and me.cfg.dominates(me.cfg.block_in[me.cfg.V[me.cfg.vertex_of(fr[0].child('range'))].block] if fr else 0, me.cfg.vertex_of(unk[0])), 'R02.5',
               MB + 'encode#unknown-last', me.loc, 'pass-through bytes follow the positioned fields')
+    string_overload_rule(ctx, prog, 'R02.7')
     # R02.6 the CheckSum field is computed by Message::calc_chksum: range, stride and carry bookkeeping rules of C07 apply
     c07.rules(ctx, prog, rid='R02.6')
     ctx.floor('R02.6', 8)
